@@ -805,8 +805,8 @@ def run(ctx):
         for k in range(2):
             plan.append(("stress:all", ["stress", "-mix", "all", "-dur", "45000", "-workers", "6", "-seed", str(sd * 10 + k), "-limit", "30000"], 45 + 30 + 90))
         for k in range(4 if predicted else 2):
-            plan.append(("stress:all-noAll", ["stress", "-mix", "all", "-skip", skip_all if predicted else "", "-dur", "90000", "-workers", str(4 + 2 * (k % 3)),
-                                              "-seed", str(sd * 10 + 100 + k), "-limit", "40000"], 90 + 40 + 90))
+            plan.append(("stress:all-noAll", ["stress", "-mix", "all", "-skip", skip_all if predicted else "", "-dur", "75000", "-workers", str(4 + 2 * (k % 3)),
+                                              "-seed", str(sd * 10 + 100 + k), "-limit", "40000"], 75 + 40 + 90))
         for mix in ("compact", "move", "dht"):
             plan.append(("stress:" + mix, ["stress", "-mix", mix, "-skip", skip_all if predicted else "", "-dur", "45000", "-workers", "5",
                                            "-seed", str(sd * 10 + 200), "-limit", "40000"], 45 + 40 + 90))
